@@ -275,12 +275,20 @@ pub fn subject_module(i: usize, s: &Subj) -> String {
         let _ = writeln!(b, "            let (Some(x), Some(y)) = (mk(a), mk(b)) else {{ return CmpObs::default(); }};\n            let mut o = CmpObs {{ constructed: true, ..Default::default() }};");
         if d.derives(Tr::PartialEq) {
             let _ = writeln!(b, "            o.eq = Some(guard_any(|| x == y));");
+            let _ = writeln!(b, "            o.ne = Some(guard_any(|| x != y));");
         }
         if d.derives(Tr::PartialOrd) {
             let _ = writeln!(b, "            o.partial = Some(guard_any(|| x.partial_cmp(&y)));");
+            let _ = writeln!(b, "            o.ops = Some(guard_any(|| [x < y, x <= y, x > y, x >= y]));");
         }
         if d.derives(Tr::Ord) {
             let _ = writeln!(b, "            o.cmp = Some(guard_any(|| ::core::cmp::Ord::cmp(&x, &y)));");
+        }
+        if d.derives(Tr::Ord) && d.derives(Tr::Clone) {
+            let _ = writeln!(b, "            o.maxmin = Some(guard_any(|| [inn(::core::cmp::Ord::max(x.clone(), y.clone())), inn(::core::cmp::Ord::min(x.clone(), y.clone()))]));");
+        }
+        if d.derives(Tr::Clone) {
+            let _ = writeln!(b, "            o.clone_from = Some(guard_any(|| {{ let mut z = x.clone(); z.clone_from(&y); inn(z) }}));");
         }
         let _ = writeln!(b, "            o");
         let _ = writeln!(m, "        fn cmp(&self, a: &Val, b: &Val) -> CmpObs {{\n{b}        }}");
